@@ -72,6 +72,10 @@ class SubCheck:
     # smaller candidate cases
     simplify: Callable[[Any], Any] | None = None
     rule: str = ""
+    # thorough tier: additional coverage-guided atheris campaign through the
+    # same strategy/oracle (tools/fuzz.py); number of libFuzzer runs in total
+    fuzz_runs: int = 0
+    fuzz_shards: int = 4
 
     def get_strategy(self):
         s = self.strategy
